@@ -81,6 +81,8 @@ static void observe(World &w) {
     // per obstacle: number of attached connectors (Obstacle::attachedConnectors is public)
     for (ObstacleList::const_iterator it = w.r->m_obstacles.begin(); it != w.r->m_obstacles.end(); ++it)
         printf("oa %u %zu\n", (*it)->id(), (*it)->attachedConnectors().size());
+    // per connector created by the harness: read-back of its checkpoint list (ConnRef::routingCheckpoints is public)
+    for (auto &cm : w.conns) if (!cm.routerMade) printf("ock %ld %zu\n", cm.id, cm.ptr->routingCheckpoints().size());
     flushLine();
 }
 
@@ -249,6 +251,22 @@ static void opSetEndpoint(World &w, vh::Rng &g, ConnM &c) {
     if (e.attached) w.mentioned.insert(e.obj);
     afterMutator(w);
 }
+// ConnRef::setRoutingCheckpoints: frees the connector's old checkpoint vertices and creates k new ones; callable
+// repeatedly; queues nothing.  The vertex ids (third id space, 200000+) only exist in the model.
+static void opSetCheckpoints(World &w, vh::Rng &g, ConnM &c, int k) {
+    std::vector<Checkpoint> cps;
+    printf("op setRoutingCheckpoints %ld %d", c.id, k);
+    for (int i = 0; i < k; ++i) printf(" %ld", 200000 + w.nextId++);
+    printf(" @");
+    for (int i = 0; i < k; ++i) {
+        // off the 5-unit grid of shapes/junctions and off the +1 grid of free ends
+        Point p(5.0 * g.range(-10, 100) + 2.0, 5.0 * g.range(-10, 100) + 2.0);
+        printf(" %g %g", p.x, p.y);
+        cps.push_back(Checkpoint(p));
+    }
+    printf("\n"); flushLine();
+    c.ptr->setRoutingCheckpoints(cps);
+}
 static void opDeleteConn(World &w, size_t i) {
     printf("op deleteConn %ld\n", w.conns[i].id); flushLine();
     w.r->deleteConnector(w.conns[i].ptr);
@@ -323,7 +341,7 @@ static void routerHist(vh::Rng &g, bool big, bool allowMajor = false, bool allow
         if (w.obst.size() < 7) { add(0, nShapes < 2 ? 6 : 2); add(1, nJ < 1 ? 3 : 1); }
         if (nShapes > 0) add(2, 3);
         if (w.conns.size() < 7) add(3, 4);
-        if (!w.conns.empty()) { add(4, 2); add(5, 1); }
+        if (!w.conns.empty()) { add(4, 2); add(5, 1); add(13, 3); }
         if (!w.obst.empty()) { add(6, 2); add(7, 3); add(8, 1); }
         if (w.consolidate) add(9, 4);
         if (w.consolidate && !w.obst.empty()) add(12, 2);
@@ -370,6 +388,15 @@ static void routerHist(vh::Rng &g, bool big, bool allowMajor = false, bool allow
             if (!c.empty()) { std::pair<ObstM *, size_t> p = g.pick(c); opDeletePin(w, *p.first, p.second); done = true; }
             break; }
         case 9: opProcess(w); done = true; break;
+        case 13: {  // (re)set routing checkpoints; half of the time twice in a row on the same connector (replace, then
+                    // replace/remove again) so that the vertices of the first call have to be released by the second
+            std::vector<ConnM *> c; for (auto &x : w.conns) if (!x.routerMade) c.push_back(&x);
+            if (c.empty()) break;
+            ConnM *cm = g.pick(c);
+            opSetCheckpoints(w, g, *cm, (int) g.range(0, 3));
+            if (g.coin()) { w.nops++; observe(w); opSetCheckpoints(w, g, *cm, g.coin() ? 0 : (int) g.range(1, 3)); }
+            done = true;
+            break; }
         case 12: {  // move an obstacle and delete it in the same pending transaction (deleteShape/deleteJunction must drop the queued move)
             std::vector<ObstM *> c;
             for (auto &o : w.obst) if (!o.pendingRemove && !o.pendingAdd && !w.mentioned.count(o.id)) c.push_back(&o);
@@ -652,9 +679,12 @@ int main(int argc, char **argv) {
     long nRouter = (big ? 700 : 150) * a.scale;
     long nLib = (big ? 150 : 40) * a.scale;
     if (a.n >= 0) { nRouter = a.n; nLib = a.n / 4; }
+    // --mode router / --mode libs run one half only (same case indices), so that an abort in one half (e.g. the
+    // known nudging assertion orthogonal.cpp:3041) does not cost the other half its cases
+    bool doRouter = a.mode != "libs", doLibs = a.mode != "router";
     long k = 0;
     for (long i = 0; i < nRouter; ++i, ++k) {
-        if (!a.want(k)) continue;
+        if (!doRouter || !a.want(k)) continue;
         vh::Rng g = vh::caseRng(a.seed, (uint64_t) k);
         vh::beginCase(k, "router-hist");
         routerHist(g, big);
@@ -668,7 +698,7 @@ int main(int argc, char **argv) {
         {"topology-hist", c15::topologyHist}, {"dialect-hist", c15::dialectHist}};
     for (int c = 0; c < 4; ++c) {
         for (long i = 0; i < nLib; ++i, ++k) {
-            if (!a.want(k)) continue;
+            if (!doLibs || !a.want(k)) continue;
             vh::Rng g = vh::caseRng(a.seed, (uint64_t) k);
             vh::beginCase(k, libs[c].tag);
             libs[c].fn(g, big);
